@@ -610,6 +610,12 @@ func init() {
 		neg := in.st.Slt(t, in.st.Const(64, 0))
 		return in.mkSym(in.st.Ite(neg, in.st.Un(OpNeg, t), t), types.Int64), true
 	}
+	// Ite(c, a, b) int64 without forking
+	V["Ite"] = func(fr *frame, args []value) (value, bool) {
+		in := fr.i
+		c := in.toTerm(args[0], types.Bool)
+		return in.mkSym(in.st.Ite(c, in.toTerm(args[1], types.Int64), in.toTerm(args[2], types.Int64)), types.Int64), true
+	}
 	V["IsConcrete"] = func(fr *frame, args []value) (value, bool) { return false, true }
 }
 
